@@ -192,7 +192,7 @@ impl CanonicalRequest {
     requires self.wf()
     ensures
         self.header_carrier_fails(auth_header@) ==> r is Err && r->Err_0 is IncompleteSignature, //# C13 C19 name=rules_6a_6b_6d_incomplete_signature
-        !self.header_carrier_fails(auth_header@) ==> r is Ok && self.header_carrier_ok(auth_header@, r->Ok_0), //# C19 C02 C13 name=last_parameter_first_date_first_token
+        !self.header_carrier_fails(auth_header@) ==> r is Ok && self.header_carrier_ok(auth_header@, r->Ok_0), //# C19 C02 C13 C11 name=last_parameter_first_date_first_token
 //@ bodystart
     hide(bmap);
     hide(hmap);
@@ -296,7 +296,7 @@ impl CanonicalRequest {
     ensures
         query_alg.spec_bytes() != ALGO() ==> r is Err && r->Err_0 is MissingAuthenticationToken, //# C13 C19 name=rule_7a_wrong_algorithm
         query_alg.spec_bytes() == ALGO() && self.query_carrier_missing() ==> r is Err && r->Err_0 is IncompleteSignature, //# C13 C19 name=rule_7d_missing_parameter
-        query_alg.spec_bytes() == ALGO() && !self.query_carrier_missing() ==> r is Ok && self.query_carrier_ok(r->Ok_0), //# C19 C02 name=first_value_of_each_parameter_decoded
+        query_alg.spec_bytes() == ALGO() && !self.query_carrier_missing() ==> r is Ok && self.query_carrier_ok(r->Ok_0), //# C19 C02 C11 name=first_value_of_each_parameter_decoded
 //@ bodystart
     hide(qmap);
     broadcast use axiom_contains_str_key, axiom_maps_str_key_to_value, axiom_string_of_str_bytes, axiom_string_key_model;
